@@ -347,9 +347,9 @@ pub fn run(env: &Env) -> i32 {
     });
     // random longer sequences
     use proptest::prelude::*;
-    value_stream(env, &mut st, "sequences-random", env.tier.n(20_000, 400_000), || proptest::collection::vec((1u16..=32).prop_map(|n| n * 8), 0..64), |seq: &Vec<u16>, s| seq_case("sequences-random", seq, s));
+    value_stream(env, &mut st, "sequences-random", env.tier.n(100_000, 3_000_000), || proptest::collection::vec((1u16..=32).prop_map(|n| n * 8), 0..64), |seq: &Vec<u16>, s| seq_case("sequences-random", seq, s));
     // (c) files with contracts and structs
-    tape_stream(env, &mut st, "files", env.tier.n(20_000, 400_000), 300, |tape, s| {
+    tape_stream(env, &mut st, "files", env.tier.n(60_000, 1_500_000), 300, |tape, s| {
         let mut t = Tape::new(tape);
         let (text, conts) = gen_file(&mut t);
         s.sample(1, || json!({"text": text, "containers": conts.iter().map(|c| json!({"line": c.line, "struct": c.is_struct, "sizes": c.sizes})).collect::<Vec<_>>()}));
